@@ -29,6 +29,8 @@ Definition rng_graph : list fn := [
      fn_body := [SCall "random_generator" ASeeded] |};
   {| fn_name := "IterativeTraining.train"; fn_takes := true; fn_primitive := false;
      fn_body := [SCall "training_loop" ASeeded] |};
+  {| fn_name := "IterativeTraining.training_loop"; fn_takes := true; fn_primitive := false;
+     fn_body := [] |};
   {| fn_name := "Pipeline.train"; fn_takes := true; fn_primitive := false;
      fn_body := [SCall "lib:SeedSequence" ASeeded; SCall "train" ASeeded] |};
   {| fn_name := "crossfold_records"; fn_takes := true; fn_primitive := false;
@@ -122,7 +124,7 @@ Definition families : list (string * list string) := [
   ("prepare_data", ["FlexMFExplicitScorer.prepare_data"; "FlexMFImplicitScorer.prepare_data"; "FlexMFScorerBase.prepare_data"]);
   ("train", ["BiasedSVDScorer.train"; "FunkSVDScorer.train"; "ItemKNNScorer.train"; "IterativeTraining.train"; "Pipeline.train"]);
   ("train_batch", ["FlexMFExplicitScorer.train_batch"; "FlexMFImplicitScorer.train_batch"; "FlexMFScorerBase.train_batch"]);
-  ("training_loop", ["ALSBase.training_loop"; "FlexMFScorerBase.training_loop"])
+  ("training_loop", ["ALSBase.training_loop"; "FlexMFScorerBase.training_loop"; "IterativeTraining.training_loop"])
 ].
 
 Definition random_generator_shape_ok : bool := true.
